@@ -1,6 +1,904 @@
-//! SIM-C placeholder (filled in below)
+//! SIM-C — service simulation (C18). Real code: the axum Router built by the server's `main`
+//! (taken through hook H3), its handlers, `server::solve_instance`, hyper's HTTP/1 connection
+//! state machine. Stubbed: TCP (in-memory `SimPipe`), the tokio runtime and its per-connection
+//! task isolation (a seeded, hand-rolled executor that polls one connection at a time and
+//! catches panics per connection). No timers exist anywhere in this path.
+
+use crate::gen::{gen_instance, GenOpts};
+use crate::oracle_out::{check_c01, check_c03, parse_output, Violation};
+use crate::refmodel::RefInstance;
+use crate::rng::{digest_str, Rng};
+use crate::seams::{panic_signature, run_isolated, take_last_panic};
 use serde_json::{json, Value};
-use std::collections::BTreeSet;
-pub fn gen_case(seed: u64, focus: &str) -> Value { json!({"sim":"c","seed":seed,"focus":focus}) }
-pub fn exec_case(_case: &Value, _want: &BTreeSet<String>) -> Value { json!({"outcome":"invalid_case","panic":"SIM-C not built","violations":[]}) }
-pub fn case_candidates(_case: &Value) -> Vec<Value> { vec![] }
+use std::collections::{BTreeMap, BTreeSet, VecDeque};
+use std::future::Future;
+use std::panic::{catch_unwind, AssertUnwindSafe};
+use std::pin::Pin;
+use std::sync::atomic::{AtomicBool, Ordering};
+use std::sync::{Arc, Mutex};
+use std::task::{Context, Poll, Wake, Waker};
+
+#[allow(dead_code)]
+mod server_main {
+    include!("server_main_include.rs");
+}
+
+// ---------------------------------------------------------------------------------------------
+// transport
+// ---------------------------------------------------------------------------------------------
+
+#[derive(Default)]
+struct PipeInner {
+    to_server: VecDeque<u8>,
+    client_write_closed: bool,
+    client_gone: bool, // client dropped the connection entirely (reads and writes fail)
+    to_client: Vec<u8>,
+    server_closed: bool,
+    server_waker: Option<Waker>,
+}
+
+#[derive(Clone)]
+struct SimPipe(Arc<Mutex<PipeInner>>);
+
+impl hyper::rt::Read for SimPipe {
+    fn poll_read(self: Pin<&mut Self>, cx: &mut Context<'_>, mut buf: hyper::rt::ReadBufCursor<'_>) -> Poll<std::io::Result<()>> {
+        let mut p = self.0.lock().unwrap();
+        if p.client_gone {
+            return Poll::Ready(Err(std::io::Error::new(std::io::ErrorKind::ConnectionReset, "client gone")));
+        }
+        if !p.to_server.is_empty() {
+            let room = unsafe { buf.as_mut().len() };
+            let n = room.min(p.to_server.len());
+            let chunk: Vec<u8> = p.to_server.drain(..n).collect();
+            buf.put_slice(&chunk);
+            return Poll::Ready(Ok(()));
+        }
+        if p.client_write_closed {
+            return Poll::Ready(Ok(())); // EOF
+        }
+        p.server_waker = Some(cx.waker().clone());
+        Poll::Pending
+    }
+}
+
+impl hyper::rt::Write for SimPipe {
+    fn poll_write(self: Pin<&mut Self>, _cx: &mut Context<'_>, data: &[u8]) -> Poll<std::io::Result<usize>> {
+        let mut p = self.0.lock().unwrap();
+        if p.client_gone {
+            return Poll::Ready(Err(std::io::Error::new(std::io::ErrorKind::BrokenPipe, "client gone")));
+        }
+        p.to_client.extend_from_slice(data);
+        Poll::Ready(Ok(data.len()))
+    }
+    fn poll_flush(self: Pin<&mut Self>, _cx: &mut Context<'_>) -> Poll<std::io::Result<()>> {
+        Poll::Ready(Ok(()))
+    }
+    fn poll_shutdown(self: Pin<&mut Self>, _cx: &mut Context<'_>) -> Poll<std::io::Result<()>> {
+        self.0.lock().unwrap().server_closed = true;
+        Poll::Ready(Ok(()))
+    }
+}
+
+struct Flag(AtomicBool);
+impl Wake for Flag {
+    fn wake(self: Arc<Self>) {
+        self.0.store(true, Ordering::SeqCst);
+    }
+}
+
+type ConnFuture = Pin<Box<dyn Future<Output = Result<(), hyper::Error>>>>;
+
+struct ServerConn {
+    fut: Option<ConnFuture>,
+    pipe: SimPipe,
+    flag: Arc<Flag>,
+    panicked: Option<String>,
+    finished: bool,
+}
+
+thread_local! {
+    static ROUTER: std::cell::RefCell<Option<axum::Router>> = const { std::cell::RefCell::new(None) };
+}
+
+/// the real Router, built by the server's own `main` and handed over through hook H3
+fn real_router() -> Result<axum::Router, String> {
+    let cached = ROUTER.with(|r| r.borrow().clone());
+    if let Some(r) = cached {
+        return Ok(r);
+    }
+    server::verif_hooks::arm_router();
+    server_main::main();
+    match server::verif_hooks::take_router() {
+        Some(r) => {
+            ROUTER.with(|c| *c.borrow_mut() = Some(r.clone()));
+            Ok(r)
+        }
+        None => Err("server main did not offer its router (hook H3 missing?)".into()),
+    }
+}
+
+fn new_conn(router: &axum::Router) -> ServerConn {
+    let pipe = SimPipe(Arc::new(Mutex::new(PipeInner::default())));
+    let svc = hyper_util::service::TowerToHyperService::new(router.clone());
+    let conn = hyper::server::conn::http1::Builder::new().serve_connection(pipe.clone(), svc);
+    ServerConn {
+        fut: Some(Box::pin(conn)),
+        pipe,
+        flag: Arc::new(Flag(AtomicBool::new(true))),
+        panicked: None,
+        finished: false,
+    }
+}
+
+// ---------------------------------------------------------------------------------------------
+// requests and scripts
+// ---------------------------------------------------------------------------------------------
+
+fn http_request(method: &str, path: &str, version: &str, headers: &[(&str, String)], body: &[u8], chunked: Option<usize>) -> Vec<u8> {
+    let mut out = format!("{} {} HTTP/{}\r\nhost: sim\r\n", method, path, version).into_bytes();
+    for (k, v) in headers {
+        out.extend_from_slice(format!("{}: {}\r\n", k, v).as_bytes());
+    }
+    match chunked {
+        Some(sz) if !body.is_empty() => {
+            out.extend_from_slice(b"transfer-encoding: chunked\r\n\r\n");
+            for c in body.chunks(sz.max(1)) {
+                out.extend_from_slice(format!("{:x}\r\n", c.len()).as_bytes());
+                out.extend_from_slice(c);
+                out.extend_from_slice(b"\r\n");
+            }
+            out.extend_from_slice(b"0\r\n\r\n");
+        }
+        _ => {
+            if !body.is_empty() || method == "POST" {
+                out.extend_from_slice(format!("content-length: {}\r\n", body.len()).as_bytes());
+            }
+            out.extend_from_slice(b"\r\n");
+            out.extend_from_slice(body);
+        }
+    }
+    out
+}
+
+pub fn gen_case(seed: u64, focus: &str) -> Value {
+    let mut rng = Rng::new(seed);
+    let n_clients = rng.range(2, 6) as usize;
+    let mut clients = vec![];
+    for c in 0..n_clients {
+        let n_req = rng.range(1, 4) as usize;
+        let mut reqs = vec![];
+        for k in 0..n_req {
+            let kind_w: [(&str, u32); 14] = [
+                ("health", 14),
+                ("solve", 40),
+                ("solve_chunked", 6),
+                ("solve_http10", 3),
+                ("solve_large", 3),
+                ("malformed_json", 6),
+                ("wrong_shape", 6),
+                ("unresolved_reference", 6),
+                ("zero_capacity", 3),
+                ("wrong_content_type", 3),
+                ("wrong_method", 3),
+                ("unknown_path", 3),
+                ("garbage", 2),
+                ("empty_body", 2),
+            ];
+            let kind = kind_w[rng.weighted(&kind_w.iter().map(|x| x.1).collect::<Vec<_>>())].0;
+            let mut g = rng.fork((c * 100 + k) as u64);
+            let opts = GenOpts {
+                need_slots: g.chance(1, 2),
+                max_segments: 5,
+                id_prefix: format!("q{}x{}_", c, k),
+                ..Default::default()
+            };
+            let (inst, _) = gen_instance(&mut g, &opts);
+            // fault attached to this request (at most one per request, ~25 %)
+            let fault_w: [(&str, u32); 7] = [
+                ("none", 75),
+                ("close_mid_headers", 4),
+                ("close_mid_body", 6),
+                ("close_before_response", 5),
+                ("close_mid_response", 4),
+                ("duplicate_on_second_connection", 4),
+                ("half_close_after_request", 2),
+            ];
+            let fault = fault_w[rng.weighted(&fault_w.iter().map(|x| x.1).collect::<Vec<_>>())].0;
+            reqs.push(json!({"kind": kind, "instance": inst, "fault": fault, "pipelined": rng.chance(1, 6), "chunk": *rng.pick(&[1u64, 7, 64, 1024, 1 << 20])}));
+        }
+        clients.push(json!({"requests": reqs}));
+    }
+    json!({
+        "sim": "c", "seed": seed, "focus": focus, "clients": clients,
+        "hash_key": rng.next_u64(), "workers": *rng.pick(&[1u64, 1, 2, 4]), "sched_seed": rng.next_u64(),
+    })
+}
+
+pub fn case_candidates(case: &Value) -> Vec<Value> {
+    let mut out = vec![];
+    let clients = case["clients"].as_array().cloned().unwrap_or_default();
+    if clients.len() > 1 {
+        for i in (0..clients.len()).rev() {
+            let mut c = case.clone();
+            c["clients"].as_array_mut().unwrap().remove(i);
+            out.push(c);
+        }
+    }
+    for (i, cl) in clients.iter().enumerate() {
+        let n = cl["requests"].as_array().map(|a| a.len()).unwrap_or(0);
+        if n > 1 {
+            for k in (0..n).rev() {
+                let mut c = case.clone();
+                c["clients"][i]["requests"].as_array_mut().unwrap().remove(k);
+                out.push(c);
+            }
+        }
+        for k in 0..n {
+            let r = &cl["requests"][k];
+            if r["fault"] != json!("none") {
+                let mut c = case.clone();
+                c["clients"][i]["requests"][k]["fault"] = json!("none");
+                out.push(c);
+            }
+            if r["chunk"] != json!(1u64 << 20) {
+                let mut c = case.clone();
+                c["clients"][i]["requests"][k]["chunk"] = json!(1u64 << 20);
+                out.push(c);
+            }
+            if r["pipelined"] == json!(true) {
+                let mut c = case.clone();
+                c["clients"][i]["requests"][k]["pipelined"] = json!(false);
+                out.push(c);
+            }
+            for inst in crate::shrink::instance_candidates(&r["instance"]).into_iter().take(12) {
+                if RefInstance::parse(&inst).is_ok() {
+                    let mut c = case.clone();
+                    c["clients"][i]["requests"][k]["instance"] = inst;
+                    out.push(c);
+                }
+            }
+        }
+    }
+    if case["workers"] != json!(1) {
+        let mut c = case.clone();
+        c["workers"] = json!(1);
+        out.push(c);
+    }
+    out
+}
+
+#[derive(Clone, Debug, PartialEq)]
+enum Class {
+    Health,
+    ValidSolve,
+    Invalid,   // must never be answered with a 200 schedule
+    OtherHttp, // wrong method / unknown path: any well-formed HTTP answer, not a schedule
+}
+
+struct Req {
+    id: String,
+    kind: String,
+    class: Class,
+    bytes: Vec<u8>,
+    header_len: usize,
+    instance: Value,
+    fault: String,
+    pipelined: bool,
+    chunk: usize,
+}
+
+fn build_request(id: String, r: &Value) -> Req {
+    let kind = r["kind"].as_str().unwrap_or("health").to_string();
+    let inst = r["instance"].clone();
+    let body_ok = serde_json::to_vec(&inst).unwrap();
+    let ct = |v: &str| vec![("content-type", v.to_string())];
+    let (class, bytes) = match kind.as_str() {
+        "health" => (Class::Health, http_request("GET", "/health", "1.1", &[], b"", None)),
+        "solve" => (Class::ValidSolve, http_request("POST", "/solve", "1.1", &ct("application/json"), &body_ok, None)),
+        "solve_chunked" => (Class::ValidSolve, http_request("POST", "/solve", "1.1", &ct("application/json"), &body_ok, Some(97))),
+        "solve_http10" => (Class::ValidSolve, http_request("POST", "/solve", "1.0", &ct("application/json"), &body_ok, None)),
+        "solve_large" => {
+            // insignificant whitespace up to ~200 kB: the body limit is disabled
+            let mut b = body_ok.clone();
+            let pad = 200_000usize.saturating_sub(b.len());
+            b.splice(1..1, std::iter::repeat(b' ').take(pad));
+            (Class::ValidSolve, http_request("POST", "/solve", "1.1", &ct("application/json"), &b, None))
+        }
+        "malformed_json" => {
+            let mut b = body_ok.clone();
+            b.truncate(b.len() * 2 / 3);
+            (Class::Invalid, http_request("POST", "/solve", "1.1", &ct("application/json"), &b, None))
+        }
+        "wrong_shape" => {
+            let mut v = inst.clone();
+            v.as_object_mut().unwrap().remove("parameters");
+            (Class::Invalid, http_request("POST", "/solve", "1.1", &ct("application/json"), &serde_json::to_vec(&v).unwrap(), None))
+        }
+        "unresolved_reference" => {
+            let mut v = inst.clone();
+            // every route, so that the broken reference is certainly used by a departure
+            for r in v["routes"].as_array_mut().unwrap() {
+                r["vehicleType"] = json!("no_such_type");
+            }
+            (Class::Invalid, http_request("POST", "/solve", "1.1", &ct("application/json"), &serde_json::to_vec(&v).unwrap(), None))
+        }
+        "zero_capacity" => {
+            let mut v = inst.clone();
+            for t in v["vehicleTypes"].as_array_mut().unwrap() {
+                t["capacity"] = json!(0);
+            }
+            (Class::Invalid, http_request("POST", "/solve", "1.1", &ct("application/json"), &serde_json::to_vec(&v).unwrap(), None))
+        }
+        "wrong_content_type" => (Class::Invalid, http_request("POST", "/solve", "1.1", &ct("text/plain"), &body_ok, None)),
+        "empty_body" => (Class::Invalid, http_request("POST", "/solve", "1.1", &ct("application/json"), b"", None)),
+        "wrong_method" => (Class::OtherHttp, http_request("GET", "/solve", "1.1", &[], b"", None)),
+        "unknown_path" => (Class::OtherHttp, http_request("GET", "/nothing/here", "1.1", &[], b"", None)),
+        _ => (Class::Invalid, b"\x16\x03\x01\x02\x00\x01\x00\x01\xfc\x03\x03 this is not http\r\n\r\n".to_vec()),
+    };
+    let header_len = bytes.windows(4).position(|w| w == b"\r\n\r\n").map(|p| p + 4).unwrap_or(bytes.len());
+    let is_large = kind == "solve_large";
+    Req {
+        id,
+        kind,
+        class,
+        bytes,
+        header_len,
+        instance: inst,
+        fault: r["fault"].as_str().unwrap_or("none").to_string(),
+        pipelined: r["pipelined"].as_bool().unwrap_or(false),
+        chunk: {
+            let c = r["chunk"].as_u64().unwrap_or(1 << 20) as usize;
+            // byte-wise delivery of a 200 kB body would only burn steps
+            if is_large {
+                c.max(8192)
+            } else {
+                c
+            }
+        },
+    }
+}
+
+#[derive(Debug)]
+struct Response {
+    status: u16,
+    body: Vec<u8>,
+}
+
+/// parses as many complete responses as the buffer holds; returns them and the bytes consumed
+fn parse_responses(buf: &[u8], eof: bool) -> (Vec<Response>, usize) {
+    let mut out = vec![];
+    let mut pos = 0;
+    loop {
+        let rest = &buf[pos..];
+        let hend = match rest.windows(4).position(|w| w == b"\r\n\r\n") {
+            Some(p) => p + 4,
+            None => break,
+        };
+        let head = String::from_utf8_lossy(&rest[..hend]).to_lowercase();
+        let status: u16 = head.split_whitespace().nth(1).and_then(|s| s.parse().ok()).unwrap_or(0);
+        if (100..200).contains(&status) {
+            pos += hend;
+            continue;
+        }
+        let clen = head.lines().find_map(|l| l.strip_prefix("content-length:").map(|v| v.trim().parse::<usize>().unwrap_or(0)));
+        let chunked = head.lines().any(|l| l.starts_with("transfer-encoding:") && l.contains("chunked"));
+        if chunked {
+            let mut p = hend;
+            let mut body = vec![];
+            let mut complete = false;
+            loop {
+                let line_end = match rest[p..].windows(2).position(|w| w == b"\r\n") {
+                    Some(x) => p + x,
+                    None => break,
+                };
+                let sz = usize::from_str_radix(String::from_utf8_lossy(&rest[p..line_end]).trim(), 16).unwrap_or(0);
+                let data_start = line_end + 2;
+                if sz == 0 {
+                    if rest.len() >= data_start + 2 {
+                        p = data_start + 2;
+                        complete = true;
+                    }
+                    break;
+                }
+                if rest.len() < data_start + sz + 2 {
+                    break;
+                }
+                body.extend_from_slice(&rest[data_start..data_start + sz]);
+                p = data_start + sz + 2;
+            }
+            if !complete {
+                break;
+            }
+            out.push(Response { status, body });
+            pos += p;
+        } else if let Some(n) = clen {
+            if rest.len() < hend + n {
+                break;
+            }
+            out.push(Response { status, body: rest[hend..hend + n].to_vec() });
+            pos += hend + n;
+        } else if eof {
+            out.push(Response { status, body: rest[hend..].to_vec() });
+            pos = buf.len();
+        } else {
+            break;
+        }
+    }
+    (out, pos)
+}
+
+struct ClientConn {
+    conn: usize,
+    sent_reqs: Vec<usize>,        // indices into reqs, in the order put on this connection
+    out: VecDeque<(usize, u8)>,   // (request index, byte) still to deliver
+    answered: usize,              // responses already matched on this connection
+    aborted: bool,
+    consumed: usize,
+}
+
+struct Client {
+    reqs: Vec<Req>,
+    next: usize, // next request to start
+    conns: Vec<ClientConn>,
+    excused: BTreeSet<usize>,
+    answered: BTreeMap<usize, (u16, Vec<u8>)>,
+}
+
+// ---------------------------------------------------------------------------------------------
+
+pub fn exec_case(case: &Value, _want: &BTreeSet<String>) -> Value {
+    let hash_key = case["hash_key"].as_u64().unwrap_or(0);
+    let workers = case["workers"].as_u64().unwrap_or(1) as usize;
+    let c2 = case.clone();
+    match run_isolated(hash_key, workers, move || run_inner(&c2)) {
+        Ok(v) => v,
+        Err(p) => json!({"outcome": "panic", "panic": p, "violations": [], "digest": digest_str(&p)}),
+    }
+}
+
+fn run_inner(case: &Value) -> Value {
+    let router = match real_router() {
+        Ok(r) => r,
+        Err(e) => return json!({"outcome": "invalid_case", "panic": e, "violations": []}),
+    };
+    let mut rng = Rng::new(case["sched_seed"].as_u64().unwrap_or(0));
+    let mut viols: Vec<Violation> = vec![];
+    let mut faults: BTreeMap<String, u64> = BTreeMap::new();
+    let mut probes: BTreeMap<String, u64> = BTreeMap::new();
+    let mut log = String::new();
+    let mut v = |viols: &mut Vec<Violation>, check: &str, msg: String| {
+        if !viols.iter().any(|x| x.check == check) {
+            viols.push(crate::oracle_out::viol("C18", check, msg));
+        }
+    };
+    let mut clients: Vec<Client> = case["clients"]
+        .as_array()
+        .cloned()
+        .unwrap_or_default()
+        .iter()
+        .enumerate()
+        .map(|(ci, c)| Client {
+            reqs: c["requests"].as_array().cloned().unwrap_or_default().iter().enumerate().map(|(k, r)| build_request(format!("c{}r{}", ci, k), r)).collect(),
+            next: 0,
+            conns: vec![],
+            excused: BTreeSet::new(),
+            answered: BTreeMap::new(),
+        })
+        .collect();
+    let mut conns: Vec<ServerConn> = vec![];
+    let mut steps: u64 = 0;
+    let mut max_open = 0usize;
+    let mut fault_happened_at: Option<u64> = None;
+    let mut valid_after_fault = false;
+    let step_cap: u64 = 60_000;
+
+    // ---- helpers over the shared state -------------------------------------------------------
+    fn poll_conn(c: &mut ServerConn) {
+        if c.finished || c.fut.is_none() {
+            return;
+        }
+        c.flag.0.store(false, Ordering::SeqCst);
+        let waker = Waker::from(c.flag.clone());
+        let mut cx = Context::from_waker(&waker);
+        crate::seams::clear_last_panic();
+        let fut = c.fut.as_mut().unwrap();
+        match catch_unwind(AssertUnwindSafe(|| fut.as_mut().poll(&mut cx))) {
+            Ok(Poll::Pending) => {}
+            Ok(Poll::Ready(_)) => {
+                c.finished = true;
+                c.fut = None;
+                c.pipe.0.lock().unwrap().server_closed = true;
+            }
+            Err(_) => {
+                // what tokio does for a panicking connection task: the task dies, the socket closes
+                c.panicked = Some(take_last_panic().unwrap_or_else(|| "panic".into()));
+                c.finished = true;
+                c.fut = None;
+                c.pipe.0.lock().unwrap().server_closed = true;
+            }
+        }
+    }
+    fn wake_server(c: &ServerConn) {
+        let w = c.pipe.0.lock().unwrap().server_waker.take();
+        if let Some(w) = w {
+            w.wake();
+        }
+    }
+
+    // phase 0 = scripted phase with faults, phase 1 = fault-free closing round
+    for phase in 0..2 {
+        if phase == 1 {
+            // closing round: on fresh connections one health check and one fresh valid solve per client
+            for (ci, cl) in clients.iter_mut().enumerate() {
+                let mut g = Rng::new(case["sched_seed"].as_u64().unwrap_or(0) ^ (ci as u64 + 77));
+                let opts = GenOpts { max_segments: 4, id_prefix: format!("z{}_", ci), ..Default::default() };
+                let (inst, _) = gen_instance(&mut g, &opts);
+                let base = cl.reqs.len();
+                cl.reqs.push(build_request(format!("c{}closing_health", ci), &json!({"kind": "health", "instance": inst, "fault": "none"})));
+                cl.reqs.push(build_request(format!("c{}closing_solve", ci), &json!({"kind": "solve", "instance": inst, "fault": "none"})));
+                cl.next = base;
+                // force new connections
+                for cc in cl.conns.iter_mut() {
+                    cc.aborted = true;
+                }
+            }
+        }
+        let phase_start = steps;
+        loop {
+            // ---- enabled events -----------------------------------------------------------------
+            // (kind, client, conn-of-client)
+            let mut ev: Vec<(u8, usize, usize)> = vec![];
+            for (ci, cl) in clients.iter().enumerate() {
+                // start next request: on the current connection if pipelining or idle, else wait
+                if cl.next < cl.reqs.len() {
+                    let cur = cl.conns.iter().rposition(|c| !c.aborted && !conns[c.conn].pipe.0.lock().unwrap().server_closed);
+                    match cur {
+                        None => ev.push((0, ci, 0)), // open a connection and queue the request
+                        Some(k) => {
+                            let cc = &cl.conns[k];
+                            let idle = cc.out.is_empty() && cc.answered == cc.sent_reqs.len();
+                            if idle || (cl.reqs[cl.next].pipelined && cc.out.is_empty()) {
+                                ev.push((1, ci, k));
+                            }
+                        }
+                    }
+                }
+                for (k, cc) in cl.conns.iter().enumerate() {
+                    if cc.aborted {
+                        continue;
+                    }
+                    if !cc.out.is_empty() {
+                        ev.push((2, ci, k)); // deliver a chunk
+                    }
+                    let p = conns[cc.conn].pipe.0.lock().unwrap();
+                    if p.to_client.len() > cc.consumed || (p.server_closed && cc.answered < cc.sent_reqs.len()) {
+                        ev.push((3, ci, k)); // client reads
+                    }
+                }
+            }
+            for (j, c) in conns.iter().enumerate() {
+                if !c.finished && c.flag.0.load(Ordering::SeqCst) {
+                    ev.push((4, j, 0));
+                }
+            }
+            let all_done = clients.iter().all(|cl| {
+                cl.next >= cl.reqs.len()
+                    && cl.conns.iter().all(|c| c.aborted || (c.out.is_empty() && (c.answered >= c.sent_reqs.len() || conns[c.conn].pipe.0.lock().unwrap().server_closed && conns[c.conn].pipe.0.lock().unwrap().to_client.len() <= c.consumed)))
+            });
+            if all_done && ev.iter().all(|e| e.0 == 4) {
+                // let the server finish what it has been woken for, then end the phase
+                if ev.is_empty() {
+                    break;
+                }
+            }
+            if ev.is_empty() {
+                // nothing can happen although requests are outstanding
+                let waiting: Vec<String> = clients.iter().flat_map(|cl| cl.conns.iter().filter(|c| !c.aborted && c.answered < c.sent_reqs.len()).flat_map(|c| c.sent_reqs[c.answered..].iter().map(|&r| cl.reqs[r].id.clone())).collect::<Vec<_>>()).collect();
+                v(&mut viols, "C18.stuck_no_progress_possible", format!("no event is enabled but requests {:?} are unanswered on open connections", waiting));
+                break;
+            }
+            steps += 1;
+            if steps > step_cap {
+                v(&mut viols, "C18.step_cap", "run did not finish within the step cap".into());
+                break;
+            }
+            if phase == 1 && steps - phase_start > 2000 * clients.len() as u64 * 2 {
+                v(&mut viols, "C18.liveness_after_faults", format!("closing round not finished {} steps after the last fault", steps - phase_start));
+                break;
+            }
+            // server polls are given weight so that requests make progress
+            let weights: Vec<u32> = ev.iter().map(|e| match e.0 { 4 => 6, 2 => 4, 3 => 3, _ => 2 }).collect();
+            let e = ev[rng.weighted(&weights)];
+            log.push_str(&format!("{}{}.{};", e.0, e.1, e.2));
+            match e.0 {
+                0 | 1 => {
+                    let cl = &mut clients[e.1];
+                    let k = if e.0 == 0 {
+                        conns.push(new_conn(&router));
+                        cl.conns.push(ClientConn { conn: conns.len() - 1, sent_reqs: vec![], out: VecDeque::new(), answered: 0, aborted: false, consumed: 0 });
+                        cl.conns.len() - 1
+                    } else {
+                        e.2
+                    };
+                    let ri = cl.next;
+                    cl.next += 1;
+                    let bytes = cl.reqs[ri].bytes.clone();
+                    let cc = &mut cl.conns[k];
+                    cc.sent_reqs.push(ri);
+                    for b in bytes {
+                        cc.out.push_back((ri, b));
+                    }
+                    max_open = max_open.max(conns.iter().filter(|c| !c.finished).count());
+                    if cl.reqs[ri].fault == "duplicate_on_second_connection" && phase == 0 {
+                        // the same request is delivered a second time on another connection (retry / duplicate)
+                        *faults.entry("duplicate_on_second_connection".into()).or_insert(0) += 1;
+                        fault_happened_at = Some(steps);
+                        conns.push(new_conn(&router));
+                        let mut dup = ClientConn { conn: conns.len() - 1, sent_reqs: vec![ri], out: VecDeque::new(), answered: 0, aborted: false, consumed: 0 };
+                        for b in cl.reqs[ri].bytes.clone() {
+                            dup.out.push_back((ri, b));
+                        }
+                        cl.conns.insert(cl.conns.len() - 1, dup);
+                    }
+                }
+                2 => {
+                    let cl = &mut clients[e.1];
+                    let (ri, _) = *cl.conns[e.2].out.front().unwrap();
+                    let req = &cl.reqs[ri];
+                    let total = req.bytes.len();
+                    let remaining_of_req = cl.conns[e.2].out.iter().take_while(|x| x.0 == ri).count();
+                    let sent_of_req = total - remaining_of_req;
+                    let fault = if phase == 0 { req.fault.clone() } else { "none".into() };
+                    // fault points inside the request
+                    let cut = match fault.as_str() {
+                        "close_mid_headers" => Some(req.header_len / 2),
+                        "close_mid_body" if total > req.header_len + 1 => Some(req.header_len + (total - req.header_len) / 2),
+                        _ => None,
+                    };
+                    let mut n = if req.chunk >= total { remaining_of_req } else { (1 + rng.usize(req.chunk)).min(remaining_of_req) };
+                    if let Some(c) = cut {
+                        if sent_of_req < c {
+                            n = n.min(c - sent_of_req);
+                        }
+                    }
+                    let cc = &mut cl.conns[e.2];
+                    let sc = &conns[cc.conn];
+                    {
+                        let mut p = sc.pipe.0.lock().unwrap();
+                        for _ in 0..n {
+                            let (_, b) = cc.out.pop_front().unwrap();
+                            p.to_server.push_back(b);
+                        }
+                    }
+                    wake_server(sc);
+                    if let Some(c) = cut {
+                        if sent_of_req + n >= c {
+                            // the client disappears in the middle of its request
+                            *faults.entry(fault.clone()).or_insert(0) += 1;
+                            fault_happened_at = Some(steps);
+                            cc.aborted = true;
+                            cc.out.clear();
+                            for r in cc.sent_reqs[cc.answered..].to_vec() {
+                                cl.excused.insert(r);
+                            }
+                            sc.pipe.0.lock().unwrap().client_gone = true;
+                            wake_server(sc);
+                        }
+                    } else if remaining_of_req == n {
+                        match fault.as_str() {
+                            "close_before_response" => {
+                                *faults.entry(fault.clone()).or_insert(0) += 1;
+                                fault_happened_at = Some(steps);
+                                cc.aborted = true;
+                                for r in cc.sent_reqs[cc.answered..].to_vec() {
+                                    cl.excused.insert(r);
+                                }
+                                sc.pipe.0.lock().unwrap().client_gone = true;
+                                wake_server(sc);
+                            }
+                            "half_close_after_request" => {
+                                *faults.entry(fault.clone()).or_insert(0) += 1;
+                                fault_happened_at = Some(steps);
+                                // hyper's default (half_close = false, as axum::serve uses it) treats a
+                                // client that shuts down its write side as gone: its answer may be lost
+                                for r in cc.sent_reqs[cc.answered..].to_vec() {
+                                    cl.excused.insert(r);
+                                }
+                                sc.pipe.0.lock().unwrap().client_write_closed = true;
+                                wake_server(sc);
+                            }
+                            _ => {}
+                        }
+                    }
+                }
+                3 => {
+                    let cl = &mut clients[e.1];
+                    let cc = &mut cl.conns[e.2];
+                    let sc = &conns[cc.conn];
+                    let (buf, closed) = {
+                        let p = sc.pipe.0.lock().unwrap();
+                        (p.to_client.clone(), p.server_closed)
+                    };
+                    // fault: the client goes away half-way through reading a response
+                    let pending_req = cc.sent_reqs.get(cc.answered).copied();
+                    if let Some(ri) = pending_req {
+                        if phase == 0 && cl.reqs[ri].fault == "close_mid_response" && buf.len() > cc.consumed {
+                            *faults.entry("close_mid_response".into()).or_insert(0) += 1;
+                            fault_happened_at = Some(steps);
+                            cc.aborted = true;
+                            for r in cc.sent_reqs[cc.answered..].to_vec() {
+                                cl.excused.insert(r);
+                            }
+                            sc.pipe.0.lock().unwrap().client_gone = true;
+                            wake_server(sc);
+                            continue;
+                        }
+                    }
+                    let (resps, used) = parse_responses(&buf[cc.consumed..], closed);
+                    cc.consumed += used;
+                    for r in resps {
+                        match cc.sent_reqs.get(cc.answered).copied() {
+                            Some(ri) => {
+                                cc.answered += 1;
+                                log.push_str(&format!("R{}={};", cl.reqs[ri].id, r.status));
+                                if let Some(prev) = cl.answered.get(&ri) {
+                                    // duplicate delivery: both answers must be acceptable; keep the first
+                                    let _ = prev;
+                                    check_response(&cl.reqs[ri], r.status, &r.body, &mut viols);
+                                } else {
+                                    check_response(&cl.reqs[ri], r.status, &r.body, &mut viols);
+                                    cl.answered.insert(ri, (r.status, r.body));
+                                }
+                                if cl.reqs[ri].class == Class::ValidSolve && r.status == 200 {
+                                    if let Some(f) = fault_happened_at {
+                                        if steps > f {
+                                            valid_after_fault = true;
+                                        }
+                                    }
+                                }
+                            }
+                            None => v(&mut viols, "C18.unsolicited_response", format!("client {} received a response (status {}) it never asked for", e.1, r.status)),
+                        }
+                    }
+                    if closed && cc.answered < cc.sent_reqs.len() && buf.len() <= cc.consumed {
+                        // connection closed with requests outstanding: fine for a failing request and
+                        // everything queued behind it on the same connection, not for a valid one in front
+                        let first = cc.sent_reqs[cc.answered];
+                        let front = &cl.reqs[first];
+                        let panicked = conns[cc.conn].panicked.clone();
+                        // a failing (or faulted) request earlier on this connection may legitimately take the
+                        // connection down; what was pipelined behind it is retried on a new connection
+                        // (an HTTP/1.0 request without keep-alive ends the connection after its response)
+                        let poisoned = cc.sent_reqs[..=cc.answered].iter().any(|&r| matches!(cl.reqs[r].class, Class::Invalid) || cl.reqs[r].fault != "none")
+                            || cc.sent_reqs[..cc.answered].iter().any(|&r| cl.reqs[r].kind == "solve_http10");
+                        if !poisoned && matches!(front.class, Class::ValidSolve | Class::Health) && !cl.excused.contains(&first) && !cl.answered.contains_key(&first) {
+                            v(
+                                &mut viols,
+                                &format!("C18.valid_request_dropped{}", panicked.as_ref().map(|p| format!(":{}", panic_signature(p))).unwrap_or_default()),
+                                format!("connection of valid request {} ({}) was closed without an answer{}", front.id, front.kind, panicked.map(|p| format!("; handler panicked: {}", p)).unwrap_or_default()),
+                            );
+                        }
+                        for r in cc.sent_reqs[cc.answered..].to_vec() {
+                            cl.excused.insert(r);
+                        }
+                        // retry what was queued behind the failing request on a new connection
+                        let behind: Vec<usize> = if matches!(front.class, Class::Invalid) || front.fault != "none" { cc.sent_reqs[cc.answered + 1..].to_vec() } else { cc.sent_reqs[cc.answered..].to_vec() };
+                        cc.answered = cc.sent_reqs.len();
+                        cc.aborted = true;
+                        if let Some(&b) = behind.first() {
+                            if cl.next > b {
+                                cl.next = b;
+                                for r in behind {
+                                    cl.excused.remove(&r);
+                                }
+                            }
+                        }
+                    }
+                }
+                _ => {
+                    poll_conn(&mut conns[e.1]);
+                    if conns[e.1].panicked.is_some() {
+                        *probes.entry("connection_task_panicked".into()).or_insert(0) += 1;
+                    }
+                }
+            }
+        }
+        if viols.iter().any(|x| x.check.starts_with("C18.step_cap") || x.check.starts_with("C18.stuck")) {
+            break;
+        }
+    }
+    // every valid, non-excused request got its 200
+    for cl in &clients {
+        for (ri, r) in cl.reqs.iter().enumerate() {
+            if matches!(r.class, Class::ValidSolve | Class::Health) && !cl.excused.contains(&ri) && !cl.answered.contains_key(&ri) && viols.is_empty() {
+                v(&mut viols, "C18.valid_request_unanswered", format!("valid request {} ({}) never got an answer", r.id, r.kind));
+            }
+        }
+    }
+    // a connection that only ever carried valid requests must not have panicked
+    for cl in &clients {
+        for cc in &cl.conns {
+            if let Some(p) = &conns[cc.conn].panicked {
+                if cc.sent_reqs.iter().all(|&r| matches!(cl.reqs[r].class, Class::ValidSolve | Class::Health | Class::OtherHttp)) && !cc.sent_reqs.is_empty() {
+                    let excused = cc.sent_reqs.iter().any(|r| cl.reqs[*r].fault != "none");
+                    if !excused {
+                        v(&mut viols, &format!("C18.panic_on_valid_connection:{}", panic_signature(p)), format!("a connection carrying only valid requests panicked: {}", p));
+                    }
+                }
+            }
+        }
+    }
+    let n_faults: u64 = faults.values().sum();
+    let nontrivial = max_open >= 2 && n_faults >= 1 && valid_after_fault;
+    *probes.entry("max_open_connections".into()).or_insert(0) += max_open as u64;
+    for cl in &clients {
+        for r in &cl.reqs {
+            *probes.entry(format!("req_{}", r.kind)).or_insert(0) += 1;
+        }
+    }
+    json!({
+        "outcome": "ok",
+        "violations": viols.iter().map(|x| json!({"prop": x.prop, "check": x.check, "msg": x.msg})).collect::<Vec<_>>(),
+        "probes": probes,
+        "fault_kinds": faults,
+        "nontrivial": {"C18": nontrivial},
+        "digest": digest_str(&log),
+        "steps": steps,
+        "stats": {"connections": conns.len(), "steps": steps},
+    })
+}
+
+fn check_response(req: &Req, status: u16, body: &[u8], viols: &mut Vec<Violation>) {
+    let mut v = |check: String, msg: String| {
+        if !viols.iter().any(|x| x.check == check) {
+            viols.push(crate::oracle_out::viol("C18", &check, msg));
+        }
+    };
+    let looks_like_schedule = || serde_json::from_slice::<Value>(body).map(|j| j.get("schedule").is_some()).unwrap_or(false);
+    match req.class {
+        Class::Health => {
+            if status != 200 || body != b"Healthy" {
+                v("C18.health".into(), format!("{}: GET /health answered {} {:?}", req.id, status, String::from_utf8_lossy(&body[..body.len().min(60)])));
+            }
+        }
+        Class::Invalid => {
+            if status == 200 || looks_like_schedule() {
+                v(format!("C18.invalid_request_answered_200:{}", req.kind), format!("{} ({}) is invalid but was answered {} with a schedule-like body", req.id, req.kind, status));
+            }
+        }
+        Class::OtherHttp => {
+            if looks_like_schedule() {
+                v("C18.non_solve_request_got_schedule".into(), format!("{} ({}) got a schedule", req.id, req.kind));
+            }
+        }
+        Class::ValidSolve => {
+            if status != 200 {
+                v(format!("C18.valid_solve_status_{}", status), format!("{}: valid solve answered {} {:?}", req.id, status, String::from_utf8_lossy(&body[..body.len().min(120)])));
+                return;
+            }
+            let out: Value = match serde_json::from_slice(body) {
+                Ok(j) => j,
+                Err(e) => {
+                    v("C18.valid_solve_body_not_json".into(), format!("{}: body is not JSON: {}", req.id, e));
+                    return;
+                }
+            };
+            let inst = match RefInstance::parse(&req.instance) {
+                Ok(i) => i,
+                Err(_) => return,
+            };
+            match parse_output(&out) {
+                Err(e) => v("C18.valid_solve_malformed_output".into(), format!("{}: {}", req.id, e)),
+                Ok(o) => {
+                    // its own solution: exactly its own ids (unique per request), feasible, views agree
+                    let mut tmp = vec![];
+                    check_c01(&inst, &o, &mut tmp);
+                    check_c03(&inst, &o, &mut tmp);
+                    if let Some(x) = tmp.first() {
+                        v(format!("C18.not_its_own_valid_solution:{}", x.check), format!("{}: the answer is not a valid solution of the instance this request carried: {}", req.id, x.msg));
+                    }
+                }
+            }
+        }
+    }
+}
